@@ -37,7 +37,7 @@ var redirect = map[string]map[string]string{
 		"Interfaces": "", "FlagLoopback": "", "FlagUp": "", "JoinHostPort": "", "SplitHostPort": "", "ErrClosed": "",
 	},
 	"time": {
-		"Now": "Now", "Sleep": "Sleep",
+		"Now": "Now", "Sleep": "Sleep", "After": "TimeAfter",
 		"Time": "", "Duration": "", "Nanosecond": "", "Microsecond": "", "Millisecond": "", "Second": "", "Minute": "", "Hour": "",
 		"Local": "", "UTC": "", "Location": "", "Month": "", "Weekday": "", "ParseInLocation": "", "Parse": "", "Date": "", "Unix": "", "LoadLocation": "", "FixedZone": "",
 		"Monday": "", "Tuesday": "", "Wednesday": "", "Thursday": "", "Friday": "", "Saturday": "", "Sunday": "",
@@ -45,7 +45,7 @@ var redirect = map[string]map[string]string{
 		"RFC3339": "", "DateTime": "", "DateOnly": "", "TimeOnly": "",
 	},
 	"sync": {
-		"Mutex": "Mutex", "RWMutex": "RWMutex", "WaitGroup": "WaitGroup",
+		"Mutex": "Mutex", "RWMutex": "RWMutex", "WaitGroup": "WaitGroup", "Map": "Map", "Once": "Once",
 	},
 	"syscall": {
 		"SetsockoptInt": "SetsockoptInt",
@@ -274,7 +274,8 @@ func (c *fileCtx) rewrite() {
 	out := walk(c.file, func(n ast.Node) ast.Node {
 		switch x := n.(type) {
 		case *ast.SelectStmt:
-			fatal("unsupported API: select statement at %s", pos(x))
+			c.usedShim = true
+			return c.rewriteSelect(x, &tmp)
 
 		case *ast.SelectorExpr:
 			id, ok := x.X.(*ast.Ident)
@@ -396,6 +397,93 @@ func (c *fileCtx) rewrite() {
 		return n
 	})
 	c.file = out.(*ast.File)
+}
+
+// isShimCall matches a call vs.<name>(...) produced by the post-order rewrite.
+func isShimCall(e ast.Expr, name string) (*ast.CallExpr, bool) {
+	ce, ok := e.(*ast.CallExpr)
+	if !ok {
+		return nil, false
+	}
+	se, ok := ce.Fun.(*ast.SelectorExpr)
+	if !ok {
+		return nil, false
+	}
+	id, ok := se.X.(*ast.Ident)
+	if !ok || id.Name != "vs" || se.Sel.Name != name {
+		return nil, false
+	}
+	return ce, true
+}
+
+// rewriteSelect turns a select statement (whose communication clauses have already been rewritten
+// into vs.Recv / vs.Recv2 / vs.Send calls by the post-order walk) into
+//
+//	{ vssN := vs.NewSelect(hasDefault); vscK := <chan>; vs.SelRecv(vssN, vscK) ...; switch vssN.Wait() { case K: v := vs.Take(vssN, vscK); body } }
+func (c *fileCtx) rewriteSelect(x *ast.SelectStmt, tmp *int) ast.Stmt {
+	*tmp++
+	sel := fmt.Sprintf("vssel%d", *tmp)
+	blk := &ast.BlockStmt{}
+	sw := &ast.SwitchStmt{Body: &ast.BlockStmt{}}
+	hasDefault := false
+	var reg []ast.Stmt
+	for k, cl := range x.Body.List {
+		cc := cl.(*ast.CommClause)
+		clause := &ast.CaseClause{Body: cc.Body}
+		if cc.Comm == nil {
+			hasDefault = true
+			clause.List = nil // default
+			sw.Body.List = append(sw.Body.List, clause)
+			continue
+		}
+		clause.List = []ast.Expr{&ast.BasicLit{Kind: token.INT, Value: fmt.Sprint(k)}}
+		ch := fmt.Sprintf("vsc%d_%d", *tmp, k)
+		switch st := cc.Comm.(type) {
+		case *ast.ExprStmt:
+			if ce, ok := isShimCall(st.X, "Recv"); ok {
+				reg = append(reg, &ast.AssignStmt{Lhs: []ast.Expr{ast.NewIdent(ch)}, Tok: token.DEFINE, Rhs: []ast.Expr{ce.Args[0]}},
+					&ast.ExprStmt{X: call("SelRecv", ast.NewIdent(sel), ast.NewIdent(ch))})
+			} else if ce, ok := isShimCall(st.X, "Send"); ok {
+				val := fmt.Sprintf("vsv%d_%d", *tmp, k)
+				reg = append(reg, &ast.AssignStmt{Lhs: []ast.Expr{ast.NewIdent(ch)}, Tok: token.DEFINE, Rhs: []ast.Expr{ce.Args[0]}},
+					&ast.AssignStmt{Lhs: []ast.Expr{ast.NewIdent(val)}, Tok: token.DEFINE, Rhs: []ast.Expr{ce.Args[1]}},
+					&ast.ExprStmt{X: call("SelSend", ast.NewIdent(sel), ast.NewIdent(ch), ast.NewIdent(val))})
+			} else {
+				fatal("unsupported select communication at %s", pos(cc))
+			}
+		case *ast.AssignStmt:
+			name := "Take"
+			ce, ok := isShimCall(st.Rhs[0], "Recv")
+			if !ok {
+				ce, ok = isShimCall(st.Rhs[0], "Recv2")
+				name = "Take2"
+			}
+			if !ok || len(st.Rhs) != 1 {
+				fatal("unsupported select communication at %s", pos(cc))
+			}
+			reg = append(reg, &ast.AssignStmt{Lhs: []ast.Expr{ast.NewIdent(ch)}, Tok: token.DEFINE, Rhs: []ast.Expr{ce.Args[0]}},
+				&ast.ExprStmt{X: call("SelRecv", ast.NewIdent(sel), ast.NewIdent(ch))})
+			take := &ast.AssignStmt{Lhs: st.Lhs, Tok: st.Tok, Rhs: []ast.Expr{call(name, ast.NewIdent(sel), ast.NewIdent(ch))}}
+			clause.Body = append([]ast.Stmt{take}, clause.Body...)
+			// a received value that the body never uses would be "declared and not used"
+			if st.Tok == token.DEFINE {
+				for _, l := range st.Lhs {
+					if id, ok := l.(*ast.Ident); ok && id.Name != "_" {
+						clause.Body = append(clause.Body[:1], append([]ast.Stmt{&ast.AssignStmt{Lhs: []ast.Expr{ast.NewIdent("_")}, Tok: token.ASSIGN, Rhs: []ast.Expr{ast.NewIdent(id.Name)}}}, clause.Body[1:]...)...)
+					}
+				}
+			}
+		default:
+			fatal("unsupported select communication at %s", pos(cc))
+		}
+		sw.Body.List = append(sw.Body.List, clause)
+	}
+	blk.List = append(blk.List, &ast.AssignStmt{Lhs: []ast.Expr{ast.NewIdent(sel)}, Tok: token.DEFINE,
+		Rhs: []ast.Expr{call("NewSelect", ast.NewIdent(fmt.Sprint(hasDefault)))}})
+	blk.List = append(blk.List, reg...)
+	sw.Tag = &ast.CallExpr{Fun: &ast.SelectorExpr{X: ast.NewIdent(sel), Sel: ast.NewIdent("Wait")}}
+	blk.List = append(blk.List, sw)
+	return blk
 }
 
 // fixImports adds the shim import and drops imports that are no longer referenced.
